@@ -40,6 +40,7 @@ type schedSink struct {
 func (s *schedSink) digest() uint64 { return s.h*31 + uint64(s.calls) }
 
 func (s *schedSink) Write(p []byte) (int, error) {
+	verifsched.Note("sink.Write")
 	if s.yield {
 		verifsched.Yield("sink.Write")
 	}
@@ -77,6 +78,7 @@ type schedSource struct {
 }
 
 func (s *schedSource) Read(p []byte) (int, error) {
+	verifsched.Note("source.Read")
 	if s.yield {
 		verifsched.Yield("source.Read")
 	}
@@ -138,7 +140,7 @@ func runWriterPlan(p *writerPlan, conc int, o *Obs, yield bool) {
 	w := lz4.NewWriter(sinks[0])
 	opts := append([]lz4.Option{lz4.BlockSizeOption(lz4.Block64Kb), lz4.ConcurrencyOption(conc)}, p.Opts...)
 	if p.Handler {
-		opts = append(opts, lz4.OnBlockDoneOption(func(n int) { handled = append(handled, fmt.Sprint(n)) }))
+		opts = append(opts, lz4.OnBlockDoneOption(func(n int) { verifsched.Note("OnBlockDone"); handled = append(handled, fmt.Sprint(n)) }))
 	}
 	if err := w.Apply(opts...); err != nil {
 		o.logf("Apply=%v", err)
@@ -196,8 +198,8 @@ func writerScenario(p *writerPlan) *Scenario {
 		Opts: verifsched.Options{PoolYield: false},
 		Body: func(o *Obs) { runWriterPlan(p, p.Conc, o, p.FailAt > 0) },
 		Soft: func(o *Obs, x *verifsched.Execution) (string, string) {
-			if len(x.AliveAtMainExit) > 0 {
-				return "library goroutine still running after the Writer's last call (Close) returned; it finishes later on its own", fmt.Sprint(x.AliveAtMainExit)
+			if len(x.AfterMain) > 0 && writerEndsClosed(p) {
+				return "library goroutine still at work after the Writer's last call (Close) returned: " + x.AfterMain[0], fmt.Sprint(x.AfterMain)
 			}
 			return "", ""
 		},
@@ -251,6 +253,10 @@ func writerScenario(p *writerPlan) *Scenario {
 	}
 }
 
+func writerEndsClosed(p *writerPlan) bool {
+	return len(p.Steps) > 0 && p.Steps[len(p.Steps)-1].Op == "close"
+}
+
 func sameNotes(a, b []string) bool { return strings.Join(a, "|") == strings.Join(b, "|") }
 
 func describeDiff(got, want []byte) string {
@@ -273,6 +279,7 @@ type readerPlan struct {
 	FailAt  int
 	Chunk   int
 	WantErr string // "" clean; "any" some error; else errors.Is class name
+	Partial int    // >0: Reset after this many Read calls instead of reading the first stream to its end
 	Reuse   []byte // second frame read after Reset (nil: none)
 	Reuse2  []byte // its content
 }
@@ -303,7 +310,7 @@ func runReaderPlan(p *readerPlan, o *Obs) {
 	r := lz4.NewReader(src)
 	var handled int
 	o.AddState(func() uint64 { return uint64(src.pos)*1000003 + uint64(src.calls)*7 + uint64(handled) })
-	if err := r.Apply(lz4.ConcurrencyOption(p.Conc), lz4.OnBlockDoneOption(func(n int) { handled += n })); err != nil {
+	if err := r.Apply(lz4.ConcurrencyOption(p.Conc), lz4.OnBlockDoneOption(func(n int) { verifsched.Note("OnBlockDone"); handled += n })); err != nil {
 		o.logf("Apply=%v", err)
 	}
 	readAll := func() {
@@ -331,7 +338,16 @@ func runReaderPlan(p *readerPlan, o *Obs) {
 		}
 		o.logf("Read never ends")
 	}
-	readAll()
+	if p.Partial > 0 {
+		buf := make([]byte, p.BufSize)
+		for i := 0; i < p.Partial; i++ {
+			n, err := r.Read(buf)
+			o.Out = append(o.Out, buf[:n]...)
+			o.logf("Read=%d,%s", n, errClass(err))
+		}
+	} else {
+		readAll()
+	}
 	if p.Reuse != nil {
 		o.Out = append(o.Out, '|')
 		r.Reset(&schedSource{data: p.Reuse})
@@ -372,8 +388,8 @@ func readerScenario(p *readerPlan) *Scenario {
 		Name: p.Name,
 		Body: func(o *Obs) { runReaderPlan(p, o) },
 		Soft: func(o *Obs, x *verifsched.Execution) (string, string) {
-			if len(x.AliveAtMainExit) > 0 {
-				return "library goroutine still running after the Reader reported the end of the stream or an error; it finishes later on its own", fmt.Sprint(x.AliveAtMainExit)
+			if len(x.AfterMain) > 0 {
+				return "library goroutine still at work after the Reader reported the end of the stream or an error: " + x.AfterMain[0], fmt.Sprint(x.AfterMain)
 			}
 			return "", ""
 		},
@@ -391,6 +407,23 @@ func readerScenario(p *readerPlan) *Scenario {
 			want := p.Content
 			if p.Reuse != nil {
 				want = append(append(append([]byte{}, p.Content...), '|'), p.Reuse2...)
+			}
+			if p.Partial > 0 {
+				// the first stream is abandoned after Partial reads: whatever was delivered must be
+				// a prefix of it, and the second stream must be complete and clean
+				i := bytes.IndexByte(o.Out, '|')
+				if i < 0 || !bytes.HasPrefix(p.Content, o.Out[:i]) {
+					return "bytes delivered before Reset are not a prefix of the first stream", ""
+				}
+				if !bytes.Equal(o.Out[i+1:], p.Reuse2) {
+					return "after a Reset in the middle of a stream the next stream decodes to other bytes", describeDiff(o.Out[i+1:], p.Reuse2)
+				}
+				for _, l := range o.Log[p.Partial:] {
+					if !(strings.HasSuffix(l, "EOF") || strings.HasSuffix(l, ",nil")) || strings.Contains(l, "unexpected") || strings.Contains(l, "wrapped") {
+						return "after a Reset in the middle of a stream the next stream does not end cleanly", fmt.Sprint(o.Log)
+					}
+				}
+				return "", ""
 			}
 			last := ""
 			if len(o.Log) > 0 {
@@ -515,6 +548,8 @@ func c08Scenarios(thorough bool) []*Scenario {
 	// R6: reuse
 	f2, c2 := smallFrame(false, true, 2, false)
 	R(&readerPlan{Name: "R6", Conc: 2, Frame: f3, Content: c3, BufSize: 64, Reuse: f2, Reuse2: c2})
+	// R7: Reset in the middle of a stream
+	R(&readerPlan{Name: "R7", Conc: 2, Frame: f3, Content: c3, BufSize: 5, Partial: 1, Reuse: f2, Reuse2: c2})
 	return scs
 }
 
@@ -580,8 +615,11 @@ func init() {
 				}
 				t0 := time.Now()
 				b := bound
-				if strings.HasPrefix(sc.Name, "W5") || strings.HasPrefix(sc.Name, "R3") || strings.HasPrefix(sc.Name, "R4") || strings.HasPrefix(sc.Name, "R5") || sc.Name == "R6" {
+				if strings.HasPrefix(sc.Name, "W5") || strings.HasPrefix(sc.Name, "R3") || strings.HasPrefix(sc.Name, "R4") || strings.HasPrefix(sc.Name, "R5") || sc.Name == "R6" || sc.Name == "R7" {
 					b-- // fault families (many scenarios) and the two-frame reuse scenario: one bound lower
+				}
+				if sc.Name == "R7" {
+					b-- // the two-stream mid-Reset scenario is the largest: one more bound lower
 				}
 				st := exploreScenarioDL(c, sc, b, scenarioDeadline(c, si, len(all)))
 				c.Add("ms_"+sc.Name, time.Since(t0).Milliseconds())
